@@ -55,7 +55,10 @@ std::array<int, 4> parse_triplet_part(const std::string& s, char& notation, doub
     if ((*c >= '0' && *c <= '9') || *c == '.') {
       // syntax examples in this branch: "1", "-1/2", "+2*x", "1/2 * b"
       char* endptr;
-      int n = std::strtol(c, &endptr, 10);
+      long ln = std::strtol(c, &endptr, 10);
+      if (ln > 1000000 || ln < -1000000)  // also keeps the arithmetic below inside int
+        fail("number out of range in a symmetry triplet part: " + s);
+      int n = (int) ln;
       // some COD CIFs have decimal fractions ("-x+0.25", ".5+Y", "1.25000-y")
       if (*endptr == '.') {
         // avoiding strtod() etc which is locale-dependent
@@ -97,6 +100,8 @@ std::array<int, 4> parse_triplet_part(const std::string& s, char& notation, doub
       num /= den;
     }
     r[r_idx] += num;
+    if (r[r_idx] > 100000000 || r[r_idx] < -100000000)
+      fail("number out of range in a symmetry triplet part: " + s);
     if (decimal_fract)
       decimal_fract[r_idx] = num > 0 ? fract : -fract;
     num = 0;
